@@ -27,6 +27,7 @@ from analysis.panics import sites as panic_sites
 from analysis.pestdom import Grammar, PestAnalysis
 from analysis.query import call_sites
 from analysis.terms import TermBuilder, show, strip_refs, subterms
+from analysis.ir import mk_place
 from analysis.match import mentions
 from analysis import facts
 
@@ -239,28 +240,52 @@ def discharge_add_provenance(P, f, b):
     lhs = strip_refs(tb.joperand(c["args"][0]))
     rhs = strip_refs(tb.joperand(c["args"][1]))
     s_l, s_r = show(lhs), show(rhs)
-    if f.kind != "closure":
-        return False, "not in a closure over vector elements (%s + %s)" % (s_l, s_r)
     if not (rhs[0] == "len" or s_r.startswith("len(")):
         return False, "right operand is not a length (%s)" % s_r
-    # lhs must be field 0 of the closure's element parameter
-    if not re.search(r"\b(_2|offset)\b", s_l) and ".0" not in s_l:
-        return False, "left operand is not the element's first field (%s)" % s_l
-    parent = P.get(CRATE, f.parent) if getattr(f, "parent", None) else None
-    if parent is None:
-        parent = P.get(CRATE, f.name.rsplit("::{closure", 1)[0])
-    if parent is None:
-        return False, "parent function not found"
-    ptb = TermBuilder(parent, P)
-    # the map call handing this closure to the iterator
     recv = None
-    for pb, pc in call_sites(parent):
-        if (pc.get("callee") or "").endswith("Iterator::map"):
-            targs = [ptb.joperand(a) for a in pc["args"]]
-            if len(targs) > 1 and f.name.split("::")[-1] in show(targs[1]):
-                recv = targs[0]
-    if recv is None:
-        return False, "map() call for the closure not found"
+    if f.kind != "closure":
+        # the same sum in a `for (offset, values) in vec.iter()` loop: the element is the payload of `next(iter)`
+        el = None
+        for x in subterms(lhs):
+            if isinstance(x, tuple) and x and x[0] == "dc" and x[2] == "Some" and strip_refs(x[1])[0] == "call" and strip_refs(x[1])[1].endswith("::next"):
+                el = strip_refs(x[1])
+        if el is None or not (lhs[0] == "field" and lhs[2] == "0"):
+            return False, "not the first field of an element of a vector being iterated (%s + %s)" % (s_l, s_r)
+        parent, ptb = f, tb
+        it = strip_refs(el[2][0]) if el[2] else None
+        while it is not None and it[0] == "deref":
+            it = strip_refs(it[1])
+        if it is not None and it[0] == "local":
+            srcs = {it[1]}
+            for ds in ptb.defs.get(it[1], ()):  # `iter = move _tmp` where `_tmp = into_iter(..)`
+                if ds[0] == "stmt":
+                    u = parent.blocks[ds[1]].stmts[ds[2]]["rv"].get("use") or {}
+                    pj = u.get("mv") or u.get("cp")
+                    if pj is not None and not pj.get("p"):
+                        srcs.add(pj["l"])
+            for pb, pc in call_sites(parent):
+                if (pc.get("callee") or "").endswith("::into_iter") and not pc["dest"].get("p") and pc["dest"]["l"] in srcs:
+                    recv = ptb.joperand(pc["args"][0])
+        if recv is None:
+            return False, "the iterator the element comes from was not found (%s)" % show(el)[:80]
+    else:
+        # lhs must be field 0 of the closure's element parameter
+        if not re.search(r"\b(_2|offset)\b", s_l) and ".0" not in s_l:
+            return False, "left operand is not the element's first field (%s)" % s_l
+        parent = P.get(CRATE, f.parent) if getattr(f, "parent", None) else None
+        if parent is None:
+            parent = P.get(CRATE, f.name.rsplit("::{closure", 1)[0])
+        if parent is None:
+            return False, "parent function not found"
+        ptb = TermBuilder(parent, P)
+        # the map call handing this closure to the iterator
+        for pb, pc in call_sites(parent):
+            if (pc.get("callee") or "").endswith("Iterator::map"):
+                targs = [ptb.joperand(a) for a in pc["args"]]
+                if len(targs) > 1 and f.name.split("::")[-1] in show(targs[1]):
+                    recv = targs[0]
+        if recv is None:
+            return False, "map() call for the closure not found"
     m = re.search(r"field\((.*), (\w+)\)", show(recv, 60) if False else show(recv))
     roots = [x for x in subterms(recv) if x[0] == "local"]
     root_names = {x[2] for x in roots if len(x) > 2 and isinstance(x[2], str)}
@@ -272,7 +297,7 @@ def discharge_add_provenance(P, f, b):
     pushes, bad = 0, []
     allowed = ("Option::<T>::as_mut", "as std::ops::Deref>::deref", "as std::ops::DerefMut>::deref_mut", "core::slice::<impl [T]>::iter",
                "Argument::<'_>::new_display", "Argument::<'_>::new_debug", ">::from", "Vec::<T, A>::len", "Option::<T>::is_none", "Option::<T>::is_some",
-               "Iterator::map", "Iterator::max", "Option::<T>::unwrap_or")
+               "Iterator::map", "Iterator::max", "Option::<T>::unwrap_or", "::into_iter", "Iterator>::next", "Iterator::next", "Ord::max", "Ord>::max")
     for pb, pc in call_sites(parent):
         targs = [ptb.joperand(a) for a in pc["args"]]
         # only a `&mut` borrow derived from the local can change the vector
@@ -532,10 +557,26 @@ def rate_of_keyword(s):
     return int(round(v))
 
 
+def _const_operand(f, tb, a, depth=0):
+    """the constant an operand evaluates to, through single-definition temporaries / parameters of a folded helper: JSON `k` or None"""
+    if "k" in a:
+        return a["k"]
+    pj = a.get("mv") or a.get("cp")
+    if pj is None or pj.get("p") or depth > 6:
+        return None
+    ds = tb.defs.get(pj["l"], ())
+    if len(ds) == 1 and ds[0][0] == "stmt":
+        rv = f.blocks[ds[0][1]].stmts[ds[0][2]]["rv"]
+        if "use" in rv:
+            return _const_operand(f, tb, rv["use"], depth + 1)
+    return None
+
+
 def check_tables(ctx, P):
     f = ctx.need_fn(CRATE, "parser::parse_inner")
     if f is None:
         return
+    ctb = TermBuilder(f, P)
     arms = []  # (keyword, true-target block)
     for b, blk in enumerate(f.blocks):
         t = blk.term
@@ -566,7 +607,7 @@ def check_tables(ctx, P):
                 t = f.blocks[rb].term
                 if "call" in t and "bitor_assign" in (t["call"].get("callee") or ""):
                     for a in t["call"]["args"]:
-                        ci = (a.get("k") or {}).get("const_item")
+                        ci = (_const_operand(f, ctb, a) or {}).get("const_item")
                         if ci:
                             flags.append(ci.split("::")[-1])
             ok = flags == ["B%d" % rate]
@@ -590,7 +631,7 @@ def check_tables(ctx, P):
             t = f.blocks[rb].term
             if "call" in t and "bitor_assign" in (t["call"].get("callee") or ""):
                 for a in t["call"]["args"]:
-                    kk = a.get("k") or {}
+                    kk = _const_operand(f, ctb, a) or {}
                     ci = kk.get("const_item")
                     if ci:
                         try:
